@@ -456,6 +456,8 @@ def run(ctx):
     # internal forces of a beam (N, M, T results) are read in the axes of the member: the operators they are computed with carry the frame block
     ctx.attempt(_beamops.operator_frame_rule, ctx, _ElemLib(ctx.repo), "R16.18")
     ctx.attempt(hooke_rule, ctx)
+    ctx.attempt(damaged_stress_rule, ctx)
+    ctx.attempt(green_lagrange_result_rule, ctx)
     from . import c20 as _c20
 
     # 'the reported deformation energy equals one half of u'Ku, and reactions ... balance the applied loads': the two reductions,
@@ -865,3 +867,105 @@ def energy_identity_rule(ctx, rid="R16.6"):
         else:
             vars_w, vars_k = sorted(v for v in W.vars() if not v.startswith(("u", "C"))), sorted(v for v in want.vars() if not v.startswith(("u", "C")))
             r.fail(fpsi.qualname, "energy", fpsi.file, fpsi.lineno, "Elastic._Calc_Psi_Elas", f"{name} (dim {dim}): the reported deformation energy is not 1/2 u.K u for the stiffness the simulation assembles: the energy is built from {vars_w}, the stiffness from {vars_k} (integration scheme, thickness, law or a factor differ)")
+
+
+def damaged_stress_rule(ctx, rid="R16.21"):
+    """'stress ... components ... the reported deformation energy equals one half of u'Ku': in a phase-field simulation the
+    stress results and the stiffness come from the same damaged law, c(d) = g(d) c+ + c-.  `PhaseField.__Construct_Elastic_Matrix`
+    (the tensor it hands to the stiffness operator is captured) and `PhaseField._Calc_Sigma_e_pg` are interpreted with one
+    symbolic split (c+, c-; Sigma+ = c+ eps, Sigma- = c- eps), a symbolic degradation g and a symbolic strain:
+    the reported stress must be  c(d) eps  with the c(d) the stiffness is assembled from."""
+    from ..femchain import fe_hook_full
+    from ..xeval import Sink
+
+    repo = ctx.repo
+    ci = repo.cls(f"{SIM}._phasefield.PhaseField")
+    fK = repo.lookup_method(ci, ci.mangle("__Construct_Elastic_Matrix"))
+    fS = ci.methods["_Calc_Sigma_e_pg"]
+    r = ctx.rule(rid, "phase-field: the stress handed to the results is c(d) eps with c(d) = g(d) c+ + c- the tensor the displacement stiffness is assembled from (symbolic split, degradation and strain)", min_instances=1)
+    r.instance(fn=fS.qualname)
+    n = 3
+    cP = XFe((1, 1, n, n), [Poly.var(f"p{i}{j}") for i in range(n) for j in range(n)])
+    cM = XFe((1, 1, n, n), [Poly.var(f"m{i}{j}") for i in range(n) for j in range(n)])
+    eps = XFe((1, 1, n), [Poly.var(f"e{i}") for i in range(n)])
+    g = XFe((1, 1), [Poly.var("g")])
+    mv = lambda Mx: XFe((1, 1, n), [sum((Mx[0, 0, i, j] * eps[0, 0, j] for j in range(n)), Poly()) for i in range(n)])
+    pfm = SimpleNamespace(Calc_C=lambda e_: (XFe(cP.shape, list(cP.data)), XFe(cM.shape, list(cM.data))), Calc_Sigma_e_pg=lambda e_: (mv(cP), mv(cM)),
+                          Get_g_e_pg=lambda d, grp, mt=None: g, thickness=Poly.var("t"))
+    group = XObj(repo.cls("EasyFEA.FEM._group_elem._GroupElem"), dict(Ne=1, Get_gauss=lambda mt=None: SimpleNamespace(nPg=1), elemType="TRI3"))
+    captured = {}
+
+    def hook(fn, args, kwargs):
+        fi = fn if isinstance(fn, FuncInfo) else getattr(fn, "finfo", None)
+        if fi is not None and fi.name == "LinearizedElasticity":
+            captured["c"] = args[1]
+            return XArray((1, 2, 2), [Poly.var(f"K{k}") for k in range(4)])
+        return fe_hook_full(fn, args, kwargs)
+
+    I = Interp(repo, extra_builtins={"Tic": lambda *a, **k: Sink()})
+    I.call_hook = hook
+    obj = XObj(ci, {"phaseFieldModel": pfm, "model": pfm, "damage": Opaque("d"), "displacement": Opaque("u"), "dim": 2, "_verbosity": False,
+                    "mesh": SimpleNamespace(Get_list_groupElem=lambda d=None: [group], groupElem=group), "_Calc_Epsilon_e_pg": lambda *a, **k: eps})
+    try:
+        I.call_function(fK, [], self_obj=obj)
+        sig = XArray.from_nested(I.call_function(fS, [eps, group], self_obj=obj))
+    except XRaise as e:
+        r.fail(fS.qualname, "damaged-stress", fS.file, fS.lineno, "PhaseField._Calc_Sigma_e_pg", f"raises {e}")
+        return
+    c = captured.get("c")
+    if c is None:
+        raise AnalysisError(f"{rid}: the tensor handed to LinearizedElasticity by __Construct_Elastic_Matrix was not captured")
+    c = XArray.from_nested(c)
+    want = [sum((Poly.of(c[0, 0, i, j]) * eps[0, 0, j] for j in range(n)), Poly()) for i in range(n)]
+    if sig.shape == (1, 1, n) and all(is_zero(Poly.of(sig[0, 0, i]) - want[i]) for i in range(n)):
+        r.ok("Sigma == (g c+ + c-) eps, the law of the assembled stiffness")
+    else:
+        r.fail(fS.qualname, "damaged-stress", fS.file, fS.lineno, "PhaseField._Calc_Sigma_e_pg", f"the reported stress component 0 is {sig.data[0]!r}; the stiffness is assembled from c(d) = {c.data[0]!r} ..., so c(d) eps has {want[0]!r}: Stress / Sxx / Svm results do not belong to the matrix the displacement solves with (1/2 int Stress : Strain != 1/2 u'K(d)u)")
+
+
+def green_lagrange_result_rule(ctx, rid="R16.22"):
+    """'each named component result equals the corresponding component of the vector or tensor result it belongs to': the
+    strain results of a hyperelastic simulation.  `HyperElastic._Calc_GreenLagrange` is interpreted on a state whose
+    Green-Lagrange tensor is a symbolic symmetric 3 x 3 matrix E, for a 2-D and a 3-D simulation, and what it returns is
+    pushed through the component extractor the Result dispatch uses: 'xx', 'yy', 'xy' (and 'zz', 'yz', 'xz' in 3-D) must
+    come out as E_xx, E_yy, E_xy ... - the vector must be laid out as the extractor reads it for its length."""
+    from ..femchain import fe_hook_full
+
+    repo = ctx.repo
+    ci = repo.cls(f"{SIM}._hyperelastic.HyperElastic")
+    f = ci.methods["_Calc_GreenLagrange"]
+    fx = repo.module(MU).functions["__Result_in_Strain_or_Stress_field"]
+    r = ctx.rule(rid, "HyperElastic strain results: the vector _Calc_GreenLagrange returns, read by the component extractor, gives E_xx, E_yy, E_xy (2-D) and the six components (3-D) of a symbolic Green-Lagrange tensor", min_instances=2)
+    s2 = MQ.sqrt(2)
+    idx = {"xx": (0, 0), "yy": (1, 1), "zz": (2, 2), "yz": (1, 2), "xz": (0, 2), "xy": (0, 1)}
+    for dim in (2, 3):
+        r.instance(fn=f.qualname)
+        E = [[Poly.var(f"E{min(i, j)}{max(i, j)}") if (dim == 3 or (i < 2 and j < 2) or i == j == 2) else Poly() for j in range(3)] for i in range(3)]
+        Emat = XFe((1, 1, 3, 3), [E[i][j] for i in range(3) for j in range(3)])
+
+        def hook(fn, args, kwargs):
+            from ..repo import ClassInfo
+
+            if isinstance(fn, ClassInfo) and fn.name == "HyperElasticState":
+                return SimpleNamespace(Compute_GreenLagrange=lambda: Emat)
+            return fe_hook_full(fn, args, kwargs)
+
+        I = Interp(repo)
+        I.call_hook = hook
+        group = SimpleNamespace(Ne=1)
+        obj = XObj(ci, {"dim": dim, "displacement": Opaque("u"), "mesh": SimpleNamespace(groupElem=group)})
+        bad = None
+        try:
+            vec = I.call_function(f, [group], self_obj=obj)
+            for comp in (["xx", "yy", "xy"] if dim == 2 else list(idx)):
+                val = I.call_function(fx, [XFe(vec.shape, list(vec.data)), comp, s2])
+                v = val.data[0] if isinstance(val, XArray) else val
+                a, b = idx[comp]
+                if bad is None and not is_zero(Poly.of(v) - E[a][b]):
+                    bad = f"component '{comp}' comes out as {v!r}, the Green-Lagrange tensor has E_{comp} = {E[a][b]!r}"
+        except (XRaise, Uninterpretable) as e:
+            bad = f"raises {e}"
+        if bad:
+            r.fail(f.qualname, f"green-lagrange:dim{dim}", f.file, f.lineno, "HyperElastic._Calc_GreenLagrange", f"{dim}-D simulation: {bad}: the strain vector is not in the layout the extractor reads for its length (Exy / Evm / the tensor result are those of another component)")
+        else:
+            r.ok(f"dim {dim}: named strain components == entries of the Green-Lagrange tensor")
